@@ -5,6 +5,7 @@ package main
 // + caller-slice snapshot comparison + Block/expiry histories + race detector on shared use.
 
 import (
+	"verifharness/cloudsim"
 	"context"
 	"fmt"
 	"math/rand"
@@ -24,7 +25,7 @@ func init() {
 			return "vswitch-pool", true
 		}
 		return "", false
-	}})
+	}, netns: true})
 }
 
 type simVPC struct {
@@ -381,6 +382,21 @@ func runC17(c *ctxT) {
 	}
 	c17PerInterface(c, rng, nSite)
 	c17Factory(c, rng, nSite/4)
+	// the node controller's own use of the pool (closed loop): a vSwitch the cloud reported exhausted on any call
+	// (create, IPv4 assign, IPv6 assign) is not named by the next interface creation while another candidate is free
+	nLoop := 120
+	if c.Thorough {
+		nLoop = 600
+	}
+	runIpamHistories(c, "C17", nLoop, 40, func(i int, hr *rand.Rand) ipamCfg {
+		cfg := genIpamCfg(hr)
+		cfg.Adapters = max(cfg.Adapters, 4)
+		cfg.Faults = map[int]cloudsim.Fault{}
+		for k := 0; k < 2+hr.Intn(3); k++ {
+			cfg.Faults[1+hr.Intn(25)] = cloudsim.Fault{Kind: cloudsim.FaultVSwExhaust}
+		}
+		return cfg
+	}, func(h *ipamHist) { ipamRandomWalk(h) })
 }
 
 func bucket(n int) int {
